@@ -299,7 +299,25 @@ def splice_predicates(prog, b):
             return False        # predicates of other modules (ResponseBuilder::is_frame_in_progress) are anchors of their own rules
         return not any((callee(t) or {}).get("def", "").startswith(cb.crate + "::") for _, t in cb.calls())
     nb = inlined(prog, b, want, depth=1)
-    return nb if nb.raw.get("inlined") else b
+    b = nb if nb.raw.get("inlined") else b
+    # ... and the private *async* helpers that wrap the transport read (`read_more(io, buf).await?`): the read, its result and
+    # the await stay what the guard rules look for
+    def want_read(cb):
+        if not cb.raw.get("coroutine") or cb.crate != b.crate or cb.id == b.id:
+            return False
+        fn = prog.bodies.get(cb.root)
+        if fn is None or fn.raw.get("pub") or fn.raw.get("exported") or not norm(cb.name).endswith("::{closure#0}"):
+            return False
+        return any(n in TRANSPORT_READS for _, t in cb.calls() for n in callee_names(t))
+    if b.raw.get("coroutine"):
+        nb = inlined(prog, b, want_read, depth=1)
+        if any("read" in x for x in (nb.raw.get("inlined") or [])) and any(norm(c.name) in (nb.raw.get("inlined") or []) for c in prog.bodies.values() if want_read(c)):
+            nb.raw["inlined"] = list(b.raw.get("inlined") or []) + list(nb.raw.get("inlined") or [])
+            b = nb
+    return b
+
+
+TRANSPORT_READS = ("tokio::io::util::async_read_ext::AsyncReadExt::read_buf", "tokio::io::util::async_read_ext::AsyncReadExt::read", "std::io::Read::read")
 
 
 def logic_or_inlined(prog, fn, anchors):
